@@ -280,19 +280,27 @@ Fixpoint key_of (t : nat) (obs : list label) : option N :=
 Definition has_key (obs : list label) (k : N) (t : nat) : bool :=
   match key_of t obs with Some k' => N.eqb k k' | None => false end.
 
-(* walk the trace keeping: keys with an fn in flight, successes so far (key, value), failed invocations whose
-   owner has not returned yet (owner, key, outcome), calls begun and not returned, and for each call the
-   failures it may legitimately report *)
-Record ostate := mko { o_inflight : list N; o_succ : list (N * Z); o_pending : list (nat * N * outcome);
-                       o_began : list nat; o_lastfail : list (nat * outcome) }.
+(* walk the trace keeping: keys with an fn in flight; what currently forbids a new fetch of a key (key, value,
+   exempt calls): the successes since the last SetMap and the entries of the last SetMap - the latter do not
+   bind calls that had already begun when the SetMap happened, they may have passed the lock before it;
+   every value a Get of the key may legitimately return (all successes and all SetMap entries so far);
+   failed invocations whose owner has not returned yet (owner, key, outcome); calls begun and not returned;
+   for each call the failures it may legitimately report; what each call's own fn returned *)
+Record ostate := mko { o_inflight : list N; o_succ : list (N * Z * list nat); o_vals : list (N * Z);
+                       o_pending : list (nat * N * outcome); o_began : list nat;
+                       o_lastfail : list (nat * outcome); o_own : list (nat * outcome) }.
 
 Definition mem_N (k : N) (l : list N) : bool := existsb (N.eqb k) l.
 Definition remove_N (k : N) (l : list N) : list N := filter (fun x => negb (N.eqb k x)) l.
+Definition mem_nat (t : nat) (l : list nat) : bool := existsb (Nat.eqb t) l.
 
-(* oracle (no SetMap in the trace):
-   O1 single flight: LFnStart for key k only when no fn for k is in flight and no success for k has happened;
-   O2 at most one success per key (follows from O1, checked separately);
-   O3 a return without error carries the value of the key's unique success, which happened before;
+(* oracle:
+   O1 single flight: LFnStart for key k only when no fn for k is in flight - at any time, SetMap or not - and
+      no success for k has happened since the last SetMap, and the last SetMap did not supply k (for calls
+      begun after it);
+   O2 at most one success per key (follows from O1; counted separately on traces without SetMap);
+   O3 a call that invoked fn returns what its fn returned; a return without error carries the value of a
+      success of the key that happened before, or a value some earlier SetMap supplied for the key;
       a return with an error carries the outcome of a failed fn invocation of that key whose owning call
       overlaps this call (the owner had not returned when this call began, and the failure happened before
       this call returned);
@@ -303,13 +311,15 @@ Fixpoint oracle_go (all : list label) (obs : list label) (st : ostate) : bool :=
   | e :: rest =>
       match e with
       | LBegin t k =>
-          oracle_go all rest (mko (o_inflight st) (o_succ st) (o_pending st) (t :: o_began st)
+          oracle_go all rest (mko (o_inflight st) (o_succ st) (o_vals st) (o_pending st) (t :: o_began st)
                                   (map (fun p => (t, snd p)) (filter (fun p => N.eqb k (snd (fst p))) (o_pending st))
-                                   ++ o_lastfail st))
+                                   ++ o_lastfail st) (o_own st))
       | LFnStart t =>
           match key_of t all with
-          | Some k => negb (mem_N k (o_inflight st)) && negb (existsb (fun kv => N.eqb k (fst kv)) (o_succ st)) &&
-                      oracle_go all rest (mko (k :: o_inflight st) (o_succ st) (o_pending st) (o_began st) (o_lastfail st))
+          | Some k => negb (mem_N k (o_inflight st)) &&
+                      negb (existsb (fun e => N.eqb k (fst (fst e)) && negb (mem_nat t (snd e))) (o_succ st)) &&
+                      oracle_go all rest (mko (k :: o_inflight st) (o_succ st) (o_vals st) (o_pending st) (o_began st)
+                                              (o_lastfail st) (o_own st))
           | None => false
           end
       | LFnRet t o =>
@@ -317,26 +327,36 @@ Fixpoint oracle_go (all : list label) (obs : list label) (st : ostate) : bool :=
           | Some k =>
               mem_N k (o_inflight st) &&
               match snd o with
-              | None => oracle_go all rest (mko (remove_N k (o_inflight st)) ((k, fst o) :: o_succ st) (o_pending st)
-                                                (o_began st) (o_lastfail st))
+              | None => oracle_go all rest (mko (remove_N k (o_inflight st)) ((k, fst o, []) :: o_succ st)
+                                                ((k, fst o) :: o_vals st) (o_pending st)
+                                                (o_began st) (o_lastfail st) ((t, o) :: o_own st))
               | Some _ =>
-                  oracle_go all rest (mko (remove_N k (o_inflight st)) (o_succ st) ((t, k, o) :: o_pending st) (o_began st)
-                                          (map (fun t' => (t', o)) (filter (has_key all k) (o_began st)) ++ o_lastfail st))
+                  oracle_go all rest (mko (remove_N k (o_inflight st)) (o_succ st) (o_vals st) ((t, k, o) :: o_pending st)
+                                          (o_began st)
+                                          (map (fun t' => (t', o)) (filter (has_key all k) (o_began st)) ++ o_lastfail st)
+                                          ((t, o) :: o_own st))
               end
           | None => false
           end
       | LReturn t r =>
           match key_of t all with
           | Some k =>
-              (match snd r with
-               | None => existsb (fun kv => N.eqb k (fst kv) && Z.eqb (fst r) (snd kv)) (o_succ st)
-               | Some _ => existsb (fun te => Nat.eqb t (fst te) && out_eqb r (snd te)) (o_lastfail st)
+              (match find (fun p => Nat.eqb t (fst p)) (o_own st) with
+               | Some p => out_eqb r (snd p)
+               | None =>
+                   match snd r with
+                   | None => existsb (fun kv => N.eqb k (fst kv) && Z.eqb (fst r) (snd kv)) (o_vals st)
+                   | Some _ => existsb (fun te => Nat.eqb t (fst te) && out_eqb r (snd te)) (o_lastfail st)
+                   end
                end) &&
-              oracle_go all rest (mko (o_inflight st) (o_succ st)
+              oracle_go all rest (mko (o_inflight st) (o_succ st) (o_vals st)
                                       (filter (fun p => negb (Nat.eqb t (fst (fst p)))) (o_pending st))
-                                      (filter (fun t' => negb (Nat.eqb t t')) (o_began st)) (o_lastfail st))
+                                      (filter (fun t' => negb (Nat.eqb t t')) (o_began st)) (o_lastfail st) (o_own st))
           | None => false
           end
+      | LSetMap m =>
+          oracle_go all rest (mko (o_inflight st) (map (fun kv => (fst kv, snd kv, o_began st)) m) (m ++ o_vals st)
+                                  (o_pending st) (o_began st) (o_lastfail st) (o_own st))
       | _ => oracle_go all rest st
       end
   end.
@@ -355,7 +375,8 @@ Definition has_setmap (obs : list label) : bool :=
   existsb (fun e => match e with LSetMap _ => true | _ => false end) obs.
 
 Definition oracle (obs : list label) (keys : list N) : bool :=
-  oracle_go obs obs (mko [] [] [] [] []) && success_count_ok obs keys && all_returned obs.
+  oracle_go obs obs (mko [] [] [] [] [] [] []) &&
+  (has_setmap obs || success_count_ok obs keys) && all_returned obs.
 
 (* per-key fetch counts, reported next to the verdict *)
 Definition fetch_count (obs : list label) (k : N) : nat :=
@@ -367,8 +388,7 @@ Record ccase := mkcase { cc_threads : nat; cc_keys : list N; cc_obs : list label
 Definition case_model_ok (c : ccase) : bool :=
   forallb observable (cc_obs c) && accepts (4 * length (cc_obs c) + 8) (cc_threads c) init (cc_obs c).
 
-Definition case_spec_ok (c : ccase) : bool :=
-  if has_setmap (cc_obs c) then all_returned (cc_obs c) else oracle (cc_obs c) (cc_keys c).
+Definition case_spec_ok (c : ccase) : bool := oracle (cc_obs c) (cc_keys c).
 
 Fixpoint bad_indices {A} (f : A -> bool) (l : list A) (i : nat) : list nat :=
   match l with
